@@ -405,8 +405,49 @@ const FAMS: &[(&str, F)] = &[
     ("bool", t_bool), ("char", t_char), ("str", t_str), ("slice_str", t_slice_str),
 ];
 
+/// long operands (8..=maxl bytes / elements): equal, differing at exactly one position (smaller, greater, high bit),
+/// and one a proper prefix of the other - the shapes on which a word-at-a-time comparison differs from an element loop
+fn t_long(rep: &mut Report, maxl: usize) {
+    let mut pairs: Vec<(Vec<u8>, Vec<u8>)> = Vec::new();
+    for len in 8..=maxl {
+        let base: Vec<u8> = (0..len).map(|i| b'b' + (i % 3) as u8).collect();
+        pairs.push((base.clone(), base.clone()));
+        pairs.push((base.clone(), base[..len - 1].to_vec()));
+        for p in 0..len {
+            for nb in [b'a', b'z', 0x01, 0x7F] {
+                let mut o = base.clone();
+                o[p] = nb;
+                pairs.push((base.clone(), o));
+            }
+        }
+    }
+    for (k, (a, b)) in pairs.iter().enumerate() {
+        for (x, y) in [(a, b), (b, a)] {
+            let (sx, sy) = (std::str::from_utf8(x).unwrap(), std::str::from_utf8(y).unwrap());
+            let mut c = Ctx { rep, ty: "long", l: maxl, i: k, j: 0, desc: format!("{sx:?}, {sy:?}") };
+            c.rep.states += 1;
+            let (xs, ys): (&[u8], &[u8]) = (x, y);
+            ck!(c, "eq_str(long)", sx == sy, konst::eq_str(sx, sy));
+            ck!(c, "cmp_str(long)", sx.cmp(sy), konst::cmp_str(sx, sy));
+            ck!(c, "eq_bytes(long)", xs == ys, konst::slice::eq_bytes(xs, ys));
+            ck!(c, "cmp_bytes(long)", xs.cmp(ys), konst::slice::cmp_bytes(xs, ys));
+            ck!(c, "eq_slice_u8(long)", xs == ys, sc::eq_slice_u8(xs, ys));
+            ck!(c, "cmp_slice_u8(long)", xs.cmp(ys), sc::cmp_slice_u8(xs, ys));
+            ck!(c, "const_eq!(str, long)", sx == sy, const_eq!(sx, sy));
+            ck!(c, "const_cmp!(str, long)", sx.cmp(sy), const_cmp!(sx, sy));
+            let (wx, wy): (Vec<u64>, Vec<u64>) = (x.iter().map(|&b| u64::MAX - b as u64).collect(), y.iter().map(|&b| u64::MAX - b as u64).collect());
+            let (wxs, wys): (&[u64], &[u64]) = (&wx, &wy);
+            ck!(c, "eq_slice_u64(long)", wxs == wys, sc::eq_slice_u64(wxs, wys));
+            ck!(c, "cmp_slice_u64(long)", wxs.cmp(wys), sc::cmp_slice_u64(wxs, wys));
+        }
+    }
+}
+
 pub fn run(tier: Tier, rep: &mut Report) -> (String, String) {
     let l = tier.pick(5, 6, 2);
+    if tier != Tier::Miri {
+        t_long(rep, tier.pick(17, 33, 0));
+    }
     let r = par_each(FAMS, n_threads(tier), |(_, f), r| f(r, l, None));
     rep.merge(r);
     t_misc(rep);
@@ -416,7 +457,7 @@ pub fn run(tier: Tier, rep: &mut Report) -> (String, String) {
     rep.traces = rep.transitions;
     (
         "state = ordered pair of values of one supported type; transition = one eq_*/cmp_*/eq_option_*/cmp_option_* function, CmpWrapper method, const_eq!/const_cmp!/const_eq_for!/const_cmp_for! (default, |l,r|, |x| key and path forms) or assertc_eq!/assertc_ne! evaluation, compared with PartialEq::eq / Ord::cmp; plus antisymmetry, cmp==Equal<=>eq on all pairs and transitivity on all triples of length <= 2; non-trivial = slices/strings of different non-zero lengths whose first elements differ (length-vs-element precedence)".into(),
-        format!("14 primitive element types: all slices of length <= {l} over {{MIN, MAX/2, MAX}} (bool: both values; char: 0, ñ, 10FFFF), all ordered pairs, x all 4 Option combinations; scalars: all pairs of 8 boundary values per integer type, all 65536 pairs of u8 and of i8; str over [a,b,ñ] <= {l} atoms; &[&str] and &[&[u8]] of length <= {} over [\"\",a,b,ab]; all NonZero types (6 boundary values), Range/RangeInclusive of u8..u128,usize,char, Ordering, PhantomData, PhantomPinned", l.min(3)),
+        format!("14 primitive element types: all slices of length <= {l} over {{MIN, MAX/2, MAX}} (bool: both values; char: 0, ñ, 10FFFF), all ordered pairs, x all 4 Option combinations; scalars: all pairs of 8 boundary values per integer type, all 65536 pairs of u8 and of i8; str over [a,b,ñ] <= {l} atoms; &[&str] and &[&[u8]] of length <= {} over [\"\",a,b,ab]; all NonZero types (6 boundary values), Range/RangeInclusive of u8..u128,usize,char, Ordering, PhantomData, PhantomPinned; long strings / byte slices / u64 slices of length 8..={} (equal, one position changed to 4 values, proper prefix)", l.min(3), tier.pick(17, 33, 0)),
     )
 }
 
